@@ -132,7 +132,20 @@ def classify(prop, results, known, expected_panics=(), own_labels_only=False):
                 n_vp += 1
                 if st != "Unreachable":
                     n_vp_reach += 1
-            if cat == "cover":
+            if cat == "cover" and is_vp:
+                # obligation encoded as cover(!cond): SATISFIED = violated, otherwise it holds
+                if st == "Satisfied":
+                    st = "Failure"
+                elif st in ("Unsatisfiable", "Unreachable"):
+                    if st == "Unsatisfiable":
+                        tot["success"] += 1
+                    else:
+                        tot["unreachable"] += 1
+                    continue
+                else:
+                    hi.append(f"obligation `{desc}` has status {st}")
+                    continue
+            elif cat == "cover":
                 tot["covers"] += 1
                 if st == "Satisfied":
                     tot["covers_sat"] += 1
@@ -373,7 +386,8 @@ def run_check(prop, tier, cfg):
         for r in results[:4]:
             for c in r.get("checks", []):
                 if c.get("description", "").startswith("VP[") and len(samples) < 8:
-                    samples.append(dict(harness=r["harness_id"], obligation=c["description"], status=c["status"]))
+                    stt = {"Satisfied": "VIOLATED", "Unsatisfiable": "holds", "Unreachable": "holds (not reachable)"}.get(c["status"], c["status"])
+                    samples.append(dict(harness=r["harness_id"], obligation=c["description"], status=stt))
         funcs = sorted({c.get("function", "") for r in results for c in r.get("checks", [])
                         if "verif_" not in (c.get("function") or "") and c.get("function")})
         ev = dict(
